@@ -1,5 +1,6 @@
 import Proofs.Sync
 import Props.C07
+import Proofs.Locks
 /-! # C10 — the read routine never wedges: failed connections are left and redialed
 
 Model: `Model.Sync` (every interleaving of the read routine with any number of
@@ -70,5 +71,29 @@ theorem C10_backoff_bounds (wait min max : Nat) (hmm : min ≤ max) (refused : B
   intro r
   simp only [r, readBackoffIdle]
   cases refused <;> simp [Nat.min_def, Nat.max_def] <;> (repeat' split) <;> omega
+
+
+/-! ## Lock order: no circular wait between the read routine, publishers and closers -/
+
+/-- REGENERATED FACT. The order in which `connect`, `submitPersisted` (with the write function it calls), `Close` and
+`Disconnect` take the client's semaphores, as the extractor reads it off the source on every run, follows one ranking:
+connection control < sequence locks < write lock. -/
+theorem C10_fact_lock_order :
+    orderOK Facts.syn_connect_locks = true ∧ orderOK Facts.syn_submitPersisted_locks = true ∧
+    orderOK Facts.syn_Close_locks = true ∧ orderOK Facts.syn_Disconnect_locks = true := by decide
+
+/-- whoever follows an accepted acquisition order waits, at each point of it, only for a semaphore ranked above all it holds -/
+theorem C10_order_is_discipline (names : List String) (rs : List Nat) (hr : names.mapM lockRank = some rs)
+    (hok : orderOK names = true) (i : Nat) (hi : i < rs.length) : (Waiter.mk (rs.take i) rs[i]).Disciplined :=
+  orderOK_disciplined names rs hr hok i hi
+
+/-- Among actors that keep this discipline there is no circular wait: a publisher inside a slow `Persistence.Save` (holding
+its sequence lock) and the read routine inside `connect` cannot block each other for ever, for any number of actors. -/
+theorem C10_no_circular_wait (a : Waiter) (ps : List Waiter) (ha : a.Disciplined) (hd : ∀ p ∈ ps, p.Disciplined)
+    (hc : WaitChain a ps) (hne : ps ≠ []) (hback : WaitsFor (ps.getLast hne) a) : False :=
+  no_deadlock_cycle a ps ha hd hc hne hback
+
+/-- non-vacuity: the inverted order (write lock before the sequence locks) is rejected -/
+example : orderOK ["connSem", "writeSem", "atLeastOnce.seqSem", "exactlyOnce.seqSem"] = false := by decide
 
 end Model
